@@ -248,10 +248,73 @@ def run_a(cfg: dict[str, Any], seed: int, chooser: Chooser | None, *, twice: boo
                 env.trace.append(("exit", code2.name))
                 key = mode if mode not in out["again"] else mode + ":repeat"
                 out["again"][key] = list(env.trace)
+            # the same step object after it was used WITH a nested optimization: a later plain run is a plain run
+            inner = Plan(context)
+            inner_step = inner.add_step("optimizer")
+            inner_tracker = inner.add_handler("tracker", sources={inner_step})
+
+            def inner_fn(inner_plan: Any, variables: Any) -> Any:
+                inner_plan.run_step(inner_step, config=build(cfg, seed), variables=variables)
+                return inner_plan.get(inner_tracker, "results")
+
+            inner.add_function(inner_fn)
+            if not cfg.get("parallel"):  # (nested optimization does not support parallel evaluation)
+                source_box["step"] = step
+                nested_config = build(cfg, seed)
+                nested_config["optimizer"]["max_functions"] = 2
+                plan.run_step(step, config=nested_config, nested_optimization=inner)
+                env.trace.clear()
+                env.n_calls = 0
+                code3 = plan.run_step(step, config=config)
+                env.trace.append(("exit", code3.name))
+                out["again"]["same-step-after-a-nested-run"] = list(env.trace)
+            # the same plug-in manager after it gained a prioritized sampler plug-in: the run equals the run on a fresh
+            # manager that holds the same plug-ins
+            traces = []
+            for reused in (False, True):
+                mgr = manager if reused else make_manager()[0]
+                mgr.add_plugin("sampler", "verif-constant", _constant_sampler_plugin(), prioritize=True)
+                ctx = context if reused else OptimizerContext(evaluator=env, plugin_manager=mgr)
+                if not reused:
+                    ctx.add_observer(EventType.FINISHED_EVALUATION, on_finished)
+                env.trace.clear()
+                env.n_calls = 0
+                plan4 = Plan(ctx)
+                step4 = plan4.add_step("optimizer")
+                source_box["step"] = step4
+                code4 = plan4.run_step(step4, config=config)
+                env.trace.append(("exit", code4.name))
+                traces.append(list(env.trace))
+            out["prioritized"] = traces
     except Exception as exc:  # noqa: BLE001
         out["error"] = f"{type(exc).__name__}:{str(exc)[:150]}"
     out["trace"] = list(env.trace)
     return out
+
+
+def _constant_sampler_plugin() -> Any:
+    """A sampler plug-in that claims every built-in method name and returns constant samples."""
+    from ropt.plugins.sampler.base import Sampler, SamplerPlugin
+
+    class ConstantSampler(Sampler):
+        def __init__(self, enopt_config: Any, sampler_index: int, mask: Any, rng: Any) -> None:
+            self._config, self._mask = enopt_config, mask
+
+        def generate_samples(self) -> Any:
+            config = self._config
+            shape = (config.realizations.weights.size, config.gradient.number_of_perturbations, config.variables.initial_values.size)
+            samples = np.zeros(shape)
+            samples[..., slice(None) if self._mask is None else self._mask] = 0.25
+            return samples
+
+    class ConstantSamplerPlugin(SamplerPlugin):
+        def create(self, enopt_config: Any, sampler_index: int, mask: Any, rng: Any) -> Any:
+            return ConstantSampler(enopt_config, sampler_index, mask, rng)
+
+        def is_supported(self, method: str) -> bool:
+            return method.lower() in SAMPLER_METHODS
+
+    return ConstantSamplerPlugin()
 
 
 _SOLO: dict[Any, Any] = {}
@@ -305,6 +368,9 @@ def judge(case: dict[str, Any], run: dict[str, Any] | None = None) -> Judgement:
             for mode, trace in run["again"].items():
                 if trace != reference["trace"]:
                     j.fail(f"rerun-differs:{mode}", config=cfg["name"], where=first_diff(reference["trace"], trace))
+            fresh_trace, reused_trace = run["prioritized"]
+            if fresh_trace != reused_trace:
+                j.fail("reused-manager-differs-from-fresh-manager-with-the-same-plug-ins", config=cfg["name"], where=first_diff(fresh_trace, reused_trace))
     elif case["kind"] == "interpreters":
         # the same run in separately started interpreters with different string-hash salts
         j.outcome = f"{cfg['name']}:separate-interpreters"
